@@ -433,3 +433,118 @@ def c07(ctx, replay):
                          "scripted hand-over (A ends, B starts, A reads again); payloads are connection-tagged and every returned byte is attributed; "
                          "all pool events validated by TracePool.tla in one global order; distinct = distinct operation sequences")
     ctx.assumptions += ["programs run in one goroutine so that sync.Pool hands objects over deterministically; pool reuse only affects reach, not verdicts"]
+
+
+SIG_C01 = None  # everything the roundtrip family reports except pure wire-grammar signatures belongs to C01
+WIRE_ONLY = {"wire-not-decodable-by-independent-peer", "wire-message-count", "wire-message-differs-from-written"}
+
+
+def pair_models(ctx):
+    for c in ("ct", "nct", "off"):
+        rec, _ = ctx.tlc("WSPair", "WSPair.%s.cfg" % c, name="WSPair-" + c)
+        ctx.count_model(rec)
+    caught = {}
+    for c in ("dev-wrongside", "dev-dict"):
+        rec, out = ctx.tlc("WSPair", "WSPair.%s.cfg" % c, expect_ok=False, name="WSPair-" + c)
+        caught[c] = "is violated" in out
+        if not caught[c]:
+            raise Infra("model regression: %s is no longer caught" % c)
+    ctx.extra["model_catches_deviation"] = caught
+
+
+def unit_models(ctx):
+    trim = ctx.path("trim.ndjson")
+    rec, _ = ctx.tlc("WSTrim", "WSTrim.cfg", env={"OUT": trim}, name="trimLastFourBytesWriter")
+    ctx.count_model(rec)
+    wins = []
+    for cap in (1, 4, 8):
+        w = ctx.path("win%d.ndjson" % cap)
+        rec, _ = ctx.tlc("WSWindow", "WSWindow.%d.cfg" % cap, env={"OUT": w}, name="slidingWindow-cap%d" % cap)
+        ctx.count_model(rec)
+        wins.append(w)
+    return trim, wins
+
+
+def roundtrip(ctx, kinds, stride, with_units, only=None, ignore=()):
+    rows, wire = ctx.path("pair.ndjson"), ctx.path("rtwire.ndjson")
+    ctx.tlc("WSPairRows", "Rows.cfg", env={"OUT": rows, "BIG": 0 if ctx.quick() else 1}, workers=4, name="roundtrip-programs")
+    args = ["-rows", rows, "-seed", ctx.seed, "-stride", stride, "-kinds", kinds, "-wire-trace", wire]
+    if not ctx.quick():
+        args += ["-huge-every", 9]
+    if with_units:
+        trim, wins = unit_models(ctx)
+        args += ["-trim-rows", trim]
+        for w in wins:
+            args += ["-window-rows", w]
+    rep = ctx.drive("roundtrip", args, timeout=7200)
+    ctx.absorb(rep, only=only, ignore=ignore)
+    return wire
+
+
+@check("C01")
+def c01(ctx, replay):
+    pair_models(ctx)
+    roundtrip(ctx, "pair", 3 if ctx.quick() else 1, True)
+    ctx.extra["rule"] = ("TLC-enumerated programs of 1-3 messages (type x Write/Writer x chunkings in size classes {0, below, at, above the threshold, >32 KiB window, "
+                         "framing boundary 125/126/4095-4097/65535-65537, >1 MiB in thorough} x content {incompressible, repeating the previous message, zeros}) x 3x3 "
+                         "client/server compression modes x thresholds {default, 1, huge}, run on a real client/server pair through the real handshake in both "
+                         "directions; every delivery compared byte for byte and by type and order, caller buffers compared with private copies; plus every "
+                         "behaviour of the trim writer (<=4 writes of 0..9 bytes) and sliding window (cap 1,4,8) replayed into the real objects; distinct = TLC rows")
+    ctx.assumptions += ["DEFLATE itself is Go's compress/flate on both sides (opaque to the specification)"]
+
+
+@check("C02")
+def c02(ctx, replay):
+    rec, _ = ctx.tlc("WSFrameMC", "WSFrameMC.cfg", name="header-codec-roundtrip")
+    ctx.count_model(rec)
+    wsconn_model(ctx, ["quick"])
+    wire = roundtrip(ctx, "pair,rawclient,rawserver", 4 if ctx.quick() else 1, False, only=WIRE_ONLY | {"handshake", "roundtrip-write-failed"})
+    rej, _ = trace_validate(ctx, "TraceWire", "TraceWire.cfg", wire, name="TraceWire(roundtrip taps)")
+    absorb_rejections(ctx, rej, "TraceWire", wire, only=SIG_C02)
+    conc_campaign(ctx, 200 if ctx.quick() else 3000, SIG_C02)
+    ctx.extra["rule"] = ("the bytes each endpoint writes (tapped on the transport) for TLC-enumerated programs of Write/Writer calls, both roles, all agreements incl. the "
+                         "asymmetric client_no_context_takeover / server_no_context_takeover ones obtained from foreign offers and answers, thresholds {default,1,huge}: "
+                         "an independent decoder reassembles and inflates with the agreed parameters and must obtain exactly the written messages; TLC decodes every raw "
+                         "header (WSFrame!DecodeHeader) and runs the sender grammar WSFrame!WireStep and the mask-key rule over the frame sequence; plus concurrent "
+                         "executions with Ping and Close traffic; distinct = TLC program rows")
+    ctx.assumptions += ["independent decoder = harness frame parser + compress/flate with explicit takeover; its header parsing is re-done by TLC on the raw bytes",
+                        "frame traces longer than 400 frames are decoded by the harness but not sent to TLC"]
+
+
+@check("C18")
+def c18(ctx, replay):
+    rec, _ = ctx.tlc("WSNetConn", "WSNetConn.cfg", name="netconn-adapter-model")
+    ctx.count_model(rec)
+    rows = ctx.path("nc.ndjson")
+    ctx.tlc("WSNetConnRows", "WSNetConn.cfg", env={"OUT": rows, "N": 3 if ctx.quick() else 4}, workers=4, name="netconn-behaviours", timeout=1800)
+    args = ["-rows", rows, "-seed", ctx.seed]
+    args += ["-units", "1,4096"] if ctx.quick() else ["-units", "1,4096,65537"]
+    rep = ctx.drive("netconn", args, timeout=3600)
+    ctx.absorb(rep)
+    ctx.extra["exhaustive"] = True
+    ctx.extra["rule"] = ("every enabled behaviour of at most N operations of spec/WSNetConn.tla over {peer sends 0/1/3 units of the right type or a wrong-type message, "
+                         "Read with 1/2/9-unit buffers, Write of 0/2 units, peer Close 1000/1001/4000, Set{Read,Write}Deadline past/zero/future, Read or Write "
+                         "blocked with a 30 ms deadline} replayed on a real adapter (both roles, text and binary, unit = 1 B / 4 KiB / 64 KiB+1); which branch a timer "
+                         "took comes from the NcTimerIdle/NcTimerActive hooks; distinct = behaviours")
+    ctx.assumptions += ["timer branch is read from the hooks, not inferred from timing; behaviours where scheduling let the timer win are counted as not reproduced"]
+
+
+@check("C19")
+def c19(ctx, replay):
+    rec, _ = ctx.tlc("WSJson", "WSJson.cfg", name="wsjson-model")
+    ctx.count_model(rec)
+    rec, out = ctx.tlc("WSJson", "WSJson.dev.cfg", expect_ok=False, name="wsjson-model-with-aliasing-deviation")
+    if "is violated" not in out:
+        raise Infra("model regression: ResultAliasesBuffer is no longer caught")
+    rows, trace = ctx.path("json.ndjson"), ctx.path("jpool.ndjson")
+    ctx.tlc("WSJsonRows", "Rows.cfg", env={"OUT": rows, "DEPTH": 1 if ctx.quick() else 2}, workers=4, name="json-shapes")
+    rep = ctx.drive("wsjson", ["-rows", rows, "-seed", ctx.seed, "-pool-trace", trace] + ([] if ctx.quick() else ["-stride", "2"]), timeout=3600)
+    ctx.absorb(rep)
+    rej, _ = trace_validate(ctx, "TracePool", "TracePool.cfg", trace, name="TracePool(bpool)")
+    absorb_rejections(ctx, rej, "TracePool", trace, only=SIG_C07_TRACE)
+    ctx.extra["rule"] = ("JSON shapes of depth <=1 (quick) / <=2 (thorough) over {null, bool, number, large number, string, unicode+escapes, 40 KB string, arrays, "
+                         "objects} x targets {interface{}, RawMessage, []byte, int, string, struct, map} x faults {none, truncated, garbage prefix, two values, "
+                         "empty message, binary frame}; Write is checked on the wire (exactly one text message, JSON-equivalent), Read against encoding/json on the "
+                         "same bytes and target (value, or error + Close 1007 + closed), exactly-one-message by a follow-up read, aliasing by re-inspecting the last 64 "
+                         "results after every later read on any of 16 concurrent connections; bpool Get/Put events validated by TracePool.tla; distinct = rows")
+    ctx.assumptions += ["JSON encode/decode fidelity is encoding/json's (the reference), not specified in TLA+"]
